@@ -2407,6 +2407,8 @@ def BHJM_cylinder_segment(
         np.sign(phio2 - phi1) != np.sign(phio2 - phi2)
     )
     mask_z_in = (z1 - 1e-14 < z) & (z < z2 + 1e-14)
+    # on the axis the azimuth is undefined: for r1=0 the axis is an edge of the segment
+    mask_phi_in = mask_phi_in | ((r < 1e-14) & (r1 < 1e-14))
 
     # on surface
     mask_surf_z = (
